@@ -352,6 +352,7 @@ var specs = map[string]spec{
 	"sremove":       {1, 1, "self", "r0.remove(a0)", true},
 	"sunion":        {2, 0, "alloc", "r0.union(r1)", true},
 	"sinter":        {2, 0, "alloc", "r0.intersection(r1)", true},
+	"enumerate":     {1, 0, "alloc", "acc := []\nfor k, v := range r0 { acc.append([k, v]) }\nacc", false},
 }
 
 func runOp(route string, name string, refs []object.Object, vals []object.Object) result {
